@@ -100,6 +100,14 @@ def decode_value(typ, width, res, raw):
     return val
 
 
+# real-world text (IGS antenna / receiver naming, CRS names, firmware and serial numbers): content-gated special cases
+# key on strings like these, random code units never spell them
+VOCAB = ("ADVNULLANTENNA", "ADVNULLANTENNA  NONE", "TRM59800.00     SCIS", "LEIAR25.R4      LEIT", "TRM57971.00     NONE",
+         "SEPCHOKE_B3E6   SPKE", "JAVRINGANT_DM   SCIS", "ASH701945E_M    SNOW", "AOAD/M_T        NONE", "NONE",
+         "TRIMBLE NETR9", "SEPT POLARX5", "LEICA GR50", "JAVAD TRE_3 DELTA", "u-blox ZED-F9P", "SEPT MOSAIC-X5",
+         "5.45", "1.3-2", "4.85/6.05", "5237K12345", "3013601", "00000",
+         "ETRF2000", "ITRF2014", "ITRF2020", "ETRF2014", "ETRS89", "WGS84", "NAD83(2011)", "GDA2020", "EPSG:4936",
+         "ETRF2000(R08)", "ITRF2008", "EUREF01", "IGS", "RTCM", "STATION ON BATTERY", "UNKNOWN", "0", " ")
 VSTRATS = ("zero", "ones", "signbit", "maxmag", "random", "mixed", "alt")
 CSTRATS = ("zero", "one", "max", "random", "small")
 MSTRATS = ("empty", "single", "dense", "random", "nosig", "nocell", "fullcell")
@@ -294,6 +302,16 @@ class Builder:
         elif key in self.counters:
             raw = self._count_value(width, name)
             role = "counter"
+            # real-world TEXT for string groups: the code units that follow this counter spell a word from VOCAB
+            # (antenna / receiver descriptors, CRS names ...) and the counter is its length
+            self._curword = None
+            word = self.force.get("__word__") if self.force else None
+            if word is None and width <= 8 and self.vstrat in ("random", "mixed") and self.cstrat != "zero" \
+                    and self.rng.random() < 0.3:
+                word = self.rng.choice(VOCAB)
+            if word and len(word) <= (1 << width) - 1 and (self.cap is None or len(word) <= self.cap):
+                raw = len(word)
+                self._curword = word
         elif key in self.conds:
             raw = self.rng.getrandbits(width) if self.vstrat not in ("zero", "ones") else (
                 0 if self.vstrat == "zero" else (1 << width) - 1)
@@ -302,8 +320,14 @@ class Builder:
             raw = self.rng.randint(1, 255)  # zero code units kept out of the value oracle
             if self.vstrat == "ones":
                 raw = 255
+            cw = getattr(self, "_curword", None)
+            if cw and index and index[-1] <= len(cw):
+                raw = ord(cw[index[-1] - 1]) & 0xFF or 0x20
         elif typ == "CHA":
             raw = self._rand_value(width, typ)
+            cw = getattr(self, "_curword", None)
+            if cw and index and index[-1] <= len(cw):
+                raw = ord(cw[index[-1] - 1]) & ((1 << width) - 1)
         else:
             raw = self._rand_value(width, typ)
         start, end = self.w.put(raw, width)
